@@ -253,6 +253,13 @@ def oracle(run):
             key = ev[2]
             if running.get(key):
                 running[key].pop(0)
+            else:
+                probs.append(f"task_done({key}) by T{ev[1]} was accepted although no task of FIFO {key} was in progress "
+                             f"(in progress elsewhere: { {kk: len(v) for kk, v in running.items() if v} }): the sizes are no longer truthful")
+        elif k == "done" and ev[3] == "valueError":
+            key = ev[2]
+            if running.get(key):
+                probs.append(f"task_done({key}) by T{ev[1]} was refused although {len(running[key])} task(s) of FIFO {key} are in progress")
     # per-FIFO order of immediate puts
     for key, ids in order.items():
         got = [i for (i, kk) in delivered if kk == key and i in ids]
